@@ -872,8 +872,14 @@ def build_sweep_pairs(pool, master_seed, n_pairs):
         pairs.append({"kind": kind, "warm": warm, "a": a, "b": b, "prewarm": prewarm})
 
     cals = list(pool["cal"])
-    per = max(1, n_pairs // 10)
-    for _ in range(per * 2):
+    # per-kind quotas (out of 100, scaled to n_pairs) so that no kind is crowded out by the others
+    base = {"year": 10, "hebrew": 16, "failing": 8, "zone": 12, "first": 10, "eras": 6, "current": 6, "format": 10, "cobj": 8, "locale": 10, "iso": 4}
+    quota = {k: max(1, round(v * n_pairs / 100)) for k, v in base.items()}
+    kind_key = {"year-cache alias": "year", "hebrew look-ahead": "hebrew", "failing arithmetic as history": "failing",
+                "zone-cache alias": "zone", "first touch": "first", "first touch (eras)": "eras", "current culture of two threads": "current",
+                "format info": "format", "culture customised between uses": "cobj", "same locale, other calendar": "locale",
+                "iso singleton": "iso"}  # fmt: skip
+    for _ in range(quota["year"] * 3):  # generous: unusable draws are skipped, the quota is applied below
         cal = rng.choice(cals)
         g = rng.choice(pool["cal"][cal])
         ops = [o for o in g if o[0] in ("date", "ylen", "conv")]
@@ -887,7 +893,7 @@ def build_sweep_pairs(pool, master_seed, n_pairs):
         warm = rng.choice([[], [b], [a], []])
         add("year-cache alias", warm, a, b, rng.choice([["cal"], ["cal"], []]))
     lo, hi = CAL_RANGE["Hebrew Civil"]
-    for _ in range(per * 2):
+    for _ in range(quota["hebrew"] * 3):  # generous: unusable draws are skipped, the quota is applied below
         # the Hebrew calculator looks ahead at next year's slot of the global cache shared by both month numberings
         y = rng.randrange(lo + 1, hi - 1)
         if rng.random() < 0.4:
@@ -908,7 +914,7 @@ def build_sweep_pairs(pool, master_seed, n_pairs):
         elif rng.random() < 0.25:
             warm = [_alias_arith(rng, cb, y)]
         add("hebrew look-ahead", warm, a, b, ["cal"])
-    for _ in range(per * 2):
+    for _ in range(quota["failing"] * 3):  # generous: unusable draws are skipped, the quota is applied below
         # a failing arithmetic call (or three) as history, a broad look at the years around it afterwards
         cal = rng.choice(["Hebrew Civil", "Hebrew Scriptural", "Hebrew Civil", rng.choice(cals)])
         lo2, hi2 = CAL_RANGE[cal]
@@ -920,7 +926,7 @@ def build_sweep_pairs(pool, master_seed, n_pairs):
         b = rng.choice([["ylen", cal, y], _alias_arith(rng, cal, y)])
         add("failing arithmetic as history", warm, a, b, ["cal"])
     zids = list(pool["zone"])
-    for _ in range(per * 3):
+    for _ in range(quota["zone"] * 3):  # generous: unusable draws are skipped, the quota is applied below
         zid = rng.choice(zids)
         g = rng.choice(pool["zone"][zid])
         ops = [o for o in g if o[0] in ("zi", "zoff", "inzone")]
@@ -935,20 +941,20 @@ def build_sweep_pairs(pool, master_seed, n_pairs):
         b = [b[0], a[1], b[2]] if rng.random() < 0.7 else b  # same zone object unless an alias is wanted
         add("zone-cache alias", rng.choice([[], [b], []]), a, b, ["prov", "zones"])
     first = [o for o in pool["prov"] if o[0] in ("tz", "tznone", "fixed", "fixedcur", "utc", "cprov")] + [o for o in pool["calid"]]
-    for _ in range(per * 2):
+    for _ in range(quota["first"] * 3):  # generous: unusable draws are skipped, the quota is applied below
         a = rng.choice(first)
         same = [o for o in first if o[0] == a[0] and o[1:2] == a[1:2]]
         b = rng.choice(same) if rng.random() < 0.6 else rng.choice(first)
         add("first touch", [], a, b, ["prov"] if rng.random() < 0.9 else [])
     eraops = [o for o in pool["calid"] if o[0] in ("eras", "erayear")] + [o for g in pool["cal"].values() for grp in g for o in grp if o[0] == "dera"]
     eraops += [o for o in pool["names"] if o[0] == "names" and (o[3].startswith("era:") or o[3].startswith("eranames:"))]
-    for _ in range(per):
+    for _ in range(quota["eras"] * 3):  # generous: unusable draws are skipped, the quota is applied below
         # first use of an era from two threads at once
         if len(eraops) < 2:
             break
         add("first touch (eras)", [], rng.choice(eraops), rng.choice(eraops), rng.choice([[], ["cal"]]))
     cur = [o for ops in pool["text"].values() for o in ops if o[0] in ("fmt", "parse") and o[4] == "current"]
-    for _ in range(per):
+    for _ in range(quota["current"] * 3):  # generous: unusable draws are skipped, the quota is applied below
         # two threads, each formatting under its own current culture
         if len(cur) < 2:
             break
@@ -958,15 +964,15 @@ def build_sweep_pairs(pool, master_seed, n_pairs):
             add("current culture of two threads", [], a, rng.choice(others), rng.choice([[], ["cultures"]]))
     texts = [o for ops in pool["text"].values() for o in ops if o[0] in ("fmt", "fmtw", "fmtcust", "parse")]
     names = pool["names"]
-    for _ in range(per * 2):
+    for _ in range(quota["format"] * 3):  # generous: unusable draws are skipped, the quota is applied below
         a = rng.choice(texts + names)
         cand = texts if a[0] != "names" and a[0] != "namescust" else names
         cn = a[3] if a[0] in ("fmt", "parse", "fmtw", "fmtcust") else a[2] if a[0] == "cobj" else a[1]
         same = [o for o in cand if (o[3] if o[0] in ("fmt", "parse", "fmtw", "fmtcust") else o[2] if o[0] == "cobj" else o[1]) == cn]
         b = rng.choice(same) if rng.random() < 0.5 and same else rng.choice(cand)
         add("format info", rng.choice([[], [], [b]]), a, b, rng.choice([[], ["cultures"]]))
-    cobjs = [o for o in texts if o[0] == "cobj"]
-    for _ in range(per * 2):
+    cobjs = [o for ops in pool["text"].values() for o in ops if o[0] == "cobj"]
+    for _ in range(quota["cobj"] * 3):  # generous: unusable draws are skipped, the quota is applied below
         # one caller-owned culture object used, re-customised, used again (history only: shows at every pre-emption point)
         if not cobjs:
             break
@@ -978,7 +984,7 @@ def build_sweep_pairs(pool, master_seed, n_pairs):
         warm = [w1] if rng.random() < 0.6 else [rng.choice(same), w1]
         add("culture customised between uses", warm, a, rng.choice(cobjs), [])
     cust = [o for o in texts + names if o[0] in ("fmtcust", "namescust", "cobj") or (o[0] == "dtfi" and o[2] is not None)]
-    for _ in range(per * 2):
+    for _ in range(quota["locale"] * 3):  # generous: unusable draws are skipped, the quota is applied below
         if not cust:
             break
         b = rng.choice(cust)
@@ -991,12 +997,18 @@ def build_sweep_pairs(pool, master_seed, n_pairs):
         if rng.random() < 0.5:
             a, b = b, a
         add("same locale, other calendar", [], a, b, rng.choice([[], ["cultures"]]))
-    for _ in range(per):
+    for _ in range(quota["iso"] * 3):  # generous: unusable draws are skipped, the quota is applied below
         a = rng.choice(pool["iso"])
         same = [o for o in pool["iso"] if o[1] == a[1]]
         add("iso singleton", [], a, rng.choice(same), [])
-    rng.shuffle(pairs)
-    return pairs[:n_pairs]
+    out = []
+    taken = {}
+    for pr in pairs:
+        kk = kind_key.get(pr["kind"], "first")
+        if taken.get(kk, 0) < quota[kk]:
+            taken[kk] = taken.get(kk, 0) + 1
+            out.append(pr)
+    return out
 
 
 def _sweep_spec(pair, i, seed):
@@ -1232,7 +1244,7 @@ def prepare(tier, master_seed, workers):
             q = ["dscan", cal, d0 - 3, 45]
             _HIST_PAIRS.append([warm, q])
             hist_ops += [warm, q]
-    n_pairs = {"quick": 90, "thorough": 600}.get(tier, 12)
+    n_pairs = {"quick": 100, "thorough": 600}.get(tier, 12)
     pairs = build_sweep_pairs(_POOL, master_seed, n_pairs)
     sweep_ops = [o for pr in pairs for o in pr["warm"] + [pr["a"], pr["b"]]]
     sweep_ops += [["ziu", o[1], o[2]] for o in sweep_ops if o[0] == "zi"]
